@@ -612,8 +612,8 @@ class Orientation(Misorientation):
         all_dot_products = Rotation(M).dot_outer(symmetry)
         highest_dot_products = np.max(all_dot_products, axis=-1)
         # need to return axes order so that self is first
-        order = tuple(range(self.ndim, self.ndim + other.ndim)) + tuple(
-            range(self.ndim)
+        order = tuple(range(other.ndim, other.ndim + self.ndim)) + tuple(
+            range(other.ndim)
         )
         return highest_dot_products.transpose(*order)
 
